@@ -309,16 +309,16 @@ func runC18(c *Ctx) {
 	if fn := c.fn("R5-pending-replace", "(*ls.VFSFile).Unlock"); fn != nil {
 		const rule = "R5-pending-replace"
 		// index = pending only when the flag is set; afterwards both are reset
-		for _, st := range storesToField(fn, "VFSFile.index") {
+		for _, st := range storesToFieldDeep(fn, "VFSFile.index") {
 			c.requireGuard(rule, fn, Site{st, "f.index = f.pending"}, truthFact(vFieldLoad("VFSFile.pendingReplace", nil), true, "f.pendingReplace"))
 			c.check(vFieldLoad("VFSFile.pending", nil)(st.Val), rule, fnName(fn)+": replacement installs the pending index", c.pos(st), "f.pending", "installs something else")
 		}
 		okR := false
-		for _, st := range storesToField(fn, "VFSFile.pendingReplace") {
+		for _, st := range storesToFieldDeep(fn, "VFSFile.pendingReplace") {
 			if vConstBool(false)(st.Val) {
 				okR = true
 				// after applying
-				for _, s2 := range storesToField(fn, "VFSFile.index") {
+				for _, s2 := range storesToFieldDeep(fn, "VFSFile.index") {
 					c.check(!dominates(st, s2), rule, fnName(fn)+": the flag is cleared after it was applied", c.pos(st), "ordered", "flag cleared before use")
 				}
 			}
